@@ -32,7 +32,7 @@ theorem writeChunk_plain {leaf : LeafInfo} {cl : ChunkLayout} {es : Chunk} {pos 
     ∃ pages, writeDataPages leaf none cl.pages es = some pages ∧ wellFormedChunk leaf es = true ∧
       c.bytes = cl.gapBefore ++ pages.bytes ∧
       c.cmeta = .struct (ccFields (pos + cl.gapBefore.length) (chunkMeta leaf cl es pos pages)) ∧
-      c.endPos = pos + cl.gapBefore.length + pages.bytes.length := by
+      c.endPos = pos + cl.gapBefore.length + pages.bytes.length ∧ c.usize = pages.usize := by
   unfold writeChunk at hw
   rw [hp.dict] at hw
   simp only [Option.map_none] at hw
@@ -44,7 +44,7 @@ theorem writeChunk_plain {leaf : LeafInfo} {cl : ChunkLayout} {es : Chunk} {pos 
     | some pages =>
       simp only [hpg, Option.some.injEq] at hw
       subst hw
-      refine ⟨pages, rfl, ?_, ?_, ?_, ?_⟩
+      refine ⟨pages, rfl, ?_, ?_, ?_, ?_, ?_⟩
       · simp only [Bool.or_eq_true, Bool.not_eq_eq_eq_not, Bool.not_true, not_or, Bool.not_eq_false] at hcond
         exact hcond.1.1
       · simp
@@ -52,6 +52,7 @@ theorem writeChunk_plain {leaf : LeafInfo} {cl : ChunkLayout} {es : Chunk} {pos 
           Bool.false_eq_true, if_false]
         rw [columnChunkTV_eq]
         simp [chunkMeta]
+      · simp
       · simp
 
 theorem legal_usedEncodings (cl : ChunkLayout) (hp : PlainChunk cl) : (usedEncodings cl).all legalEncoding = true := by
@@ -88,13 +89,14 @@ theorem readChunks_written (cfg : Config) (hcfg : cfg.strictTiling = false) :
       (∀ es ∈ ess, es.length < 2 ^ 31) →
       ∃ ms : List (Nat × ColumnMeta), g.metas = ms.map (fun p => TVal.struct (ccFields p.1 p.2)) ∧
         g.endPos = pos + g.bytes.length ∧
+        g.usize = (ms.map (·.2.totalUncompressed)).sum ∧
         ∀ (pre post : Bytes) (footerStart p : Nat), pre.length = pos → pos + g.bytes.length ≤ footerStart →
           (pre ++ g.bytes ++ post).length < 2 ^ 31 →
           ∃ q, readChunks cfg (pre ++ g.bytes ++ post) footerStart leaves (ms.map (·.2)) p = .ok (ess, q)
   | [], [], [], pos, g, _, hw, _, _ => by
     simp only [writeChunks, Option.some.injEq] at hw
     subst hw
-    exact ⟨[], rfl, by simp, fun pre post fs p _ _ _ => ⟨p, rfl⟩⟩
+    exact ⟨[], rfl, by simp, rfl, fun pre post fs p _ _ _ => ⟨p, rfl⟩⟩
   | leaf :: ls, cl :: cls, es :: ess, pos, g, hpl, hw, hpos, hsmall => by
     simp only [writeChunks] at hw
     cases hc : writeChunk leaf cl es pos with
@@ -105,12 +107,13 @@ theorem readChunks_written (cfg : Config) (hcfg : cfg.strictTiling = false) :
       | some g' =>
         simp only [hc, hr, Option.some.injEq] at hw
         subst hw
-        obtain ⟨pages, hpages, hwf, hbytes, hmeta, hend⟩ := writeChunk_plain (hpl cl (by simp)) hc
-        obtain ⟨ms', hms', hend', hread'⟩ := readChunks_written cfg hcfg ls cls ess c.endPos g'
+        obtain ⟨pages, hpages, hwf, hbytes, hmeta, hend, hcus⟩ := writeChunk_plain (hpl cl (by simp)) hc
+        obtain ⟨ms', hms', hend', hus', hread'⟩ := readChunks_written cfg hcfg ls cls ess c.endPos g'
           (fun x hx => hpl x (by simp [hx])) hr (by omega) (fun x hx => hsmall x (by simp [hx]))
-        refine ⟨(pos + cl.gapBefore.length, chunkMeta leaf cl es pos pages) :: ms', ?_, ?_, ?_⟩
+        refine ⟨(pos + cl.gapBefore.length, chunkMeta leaf cl es pos pages) :: ms', ?_, ?_, ?_, ?_⟩
         · simp [hmeta, hms']
         · simp only [List.length_append, hend', hend, hbytes]; omega
+        · simp [hcus, hus', chunkMeta]
         · intro pre post fs p hpre hfs hlen
           simp only [hbytes, List.length_append] at hfs hlen
           -- the recursive call sees the same file with a longer prefix
@@ -128,13 +131,21 @@ theorem readChunks_written (cfg : Config) (hcfg : cfg.strictTiling = false) :
           have hchunk := readChunk_written cfg leaf cl.pages es pages (chunkMeta leaf cl es pos pages)
             (pos + cl.gapBefore.length) (hpl cl (by simp)).pages hpages hwf (by omega) (hsmall es (by simp))
             rfl (legal_usedEncodings cl (hpl cl (by simp))) (plain_usedEncodings cl (hpl cl (by simp))) rfl rfl
+          have husize : chunkUsize (pages.bytes.length + 1) pages.bytes = some pages.usize := by
+            have hwfe : ∀ e ∈ es, wellFormedEntry leaf e = true := by
+              unfold wellFormedChunk at hwf
+              simp only [Bool.and_eq_true, List.all_eq_true] at hwf
+              exact hwf.1
+            have hcount := plainPages_count_le leaf none cl.pages es pages (hpl cl (by simp)).pages hpages
+            exact chunkUsize_written cfg leaf none cl.pages es pages _ (hpl cl (by simp)).pages hpages hwfe (by omega)
+              (hsmall es (by simp)) (by omega)
           refine ⟨q, ?_⟩
           simp only [List.map_cons, hbytes]
           unfold readChunks
           simp only [chunkMeta, chunkStart, hcfg, Bool.false_and, Bool.false_eq_true, if_false, bind, Except.bind,
             pure, Except.pure]
           have h4 : ¬ (pos + cl.gapBefore.length < 4 ∨ pos + cl.gapBefore.length + pages.bytes.length > fs) := by omega
-          simp only [ne_eq, not_true_eq_false, if_false, h4, hslice]
+          simp only [ne_eq, not_true_eq_false, if_false, h4, hslice, husize]
           simp only [chunkMeta] at hchunk
           rw [hchunk]
           rw [hfile2]
@@ -175,11 +186,11 @@ theorem readRowGroups_written (cfg : Config) (hcfg : cfg.strictTiling = false) (
         | some rest =>
           simp only [ho, hr, Option.some.injEq] at hw
           subst hw
-          obtain ⟨ms, hms, hend, hread⟩ := readChunks_written cfg hcfg leaves cls g.chunks pos o (hpl cls (by simp)) ho hpos
+          obtain ⟨ms, hms, hend, hous, hread⟩ := readChunks_written cfg hcfg leaves cls g.chunks pos o (hpl cls (by simp)) ho hpos
             (hsmall g (by simp))
           obtain ⟨ds', hds', hend', hnr', hread'⟩ := readRowGroups_written cfg hcfg leaves r gs o.endPos rest
             (fun x hx => hpl x (by simp [hx])) hr (by omega) (fun x hx => hsmall x (by simp [hx]))
-          refine ⟨⟨ms, o.bytes.length, groupRows leaves g⟩ :: ds', ?_, ?_, ?_, ?_⟩
+          refine ⟨⟨ms, o.usize, groupRows leaves g⟩ :: ds', ?_, ?_, ?_, ?_⟩
           · simp only [List.map_cons, hds', hms, rowGroupTV_eq, RgDesc.fields]
           · simp only [List.length_append, hend', hend]; omega
           · simp [hnr']
@@ -200,7 +211,9 @@ theorem readRowGroups_written (cfg : Config) (hcfg : cfg.strictTiling = false) (
             unfold readRowGroups
             simp only [List.map_cons, RgDesc.meta', bind, Except.bind, pure, Except.pure]
             rw [hf1, hq1]
-            simp only [hrows', Bool.not_true, Bool.false_eq_true, if_false]
+            have hbs : ((ms.map (·.2)).map (·.totalUncompressed)).sum = o.usize := by
+              rw [hous, List.map_map]; rfl
+            simp only [hrows', Bool.not_true, Bool.false_eq_true, if_false, hbs, ne_eq, not_true_eq_false]
             rw [← hf1, hf2]
             rw [hq2]
   | [], _ :: _, _, _, _, hw, _, _ => by simp [writeGroups] at hw
